@@ -81,6 +81,14 @@ def run(chk):
               "normalize grain sizes": [rng.random() < 0.5 for _ in comps]}
         gm["grain sizes"][0], gm["normalize grain sizes"][0] = -1, True
         gm["grain sizes"][1], gm["normalize grain sizes"][1] = round(rng.uniform(0.05, 1.5), 3), False
+        if wi % 2 == 1:
+            # orientations drawn close to a basis orientation: the draws of neighbouring trench coordinates are nearly equal,
+            # which is where the interpolation between them (quaternion slerp) switches to its near-parallel branch
+            from wbgen import Gen
+            dm = Gen(rng).random_grains_model(0, 1e5, kinds=("random uniform distribution deflected",))
+            gm["model"] = "random uniform distribution deflected"
+            gm["deflections"] = [rng.choice([0.001, 0.003, 0.01, 0.03, 0.1]) for _ in comps]
+            gm["basis rotation matrices"] = [dm["basis rotation matrices"][0] for _ in comps]
         lf["grains models"] = [gm]
         lf["composition models"] = [{"model": "uniform", "compositions": [0]}]
         seed = rng.randrange(1, 1 << 30)
